@@ -205,6 +205,17 @@ def run_property(prop, sp, tier, seed, replay):
                        model=models[k] if k is not None and k < len(models) else None,
                        broken=[f"{a}: {b}" for a, b in broken], failing_cases=len(new_fails))
         violation = (write_replay(prop, payload), "")
+    elif broken and sp.get("diff_is_failing_input") and diffs_new and all(a == "correspondence" for a, _ in broken):
+        # the model IS the statement of the property for this check (its output is what the property
+        # says the implementation must produce): an input on which they differ is a failing input
+        k = pick_smallest([k for k, _ in diffs_new])
+        payload = dict(base, kind="failing-input", case_index=k,
+                       oracle="the implementation's result differs from the result the proved model gives for this input",
+                       case=cases[k] if k is not None else None,
+                       impl=impls[k] if k is not None and k < len(impls) else None,
+                       model=models[k] if k is not None and k < len(models) else None,
+                       broken=[f"{a}: {b}" for a, b in broken], failing_cases=len(diffs_new))
+        violation = (write_replay(prop, payload), "")
     elif broken:
         k = pick_smallest([k for k, _ in diffs_new])
         payload = dict(base, kind="no-failing-input-found",
@@ -440,6 +451,7 @@ spec("C17",
      cmd="c17", count=dict(quick=2500, thorough=150000),
      vo_targets=["props/C17.vo", "theories/ScriptGenCheck.vo"],
      soft_sections=["cls"],
+     diff_is_failing_input=True,
      level="proof",
      rule="first the call-form oracle on the engine alone: for each of the 26 shapes (3 rounds of random field values) the map form must agree with the chained / transform form (defaults omitted), reducers with 1..8 individual trees and with an array must agree with the array in a map, and the positional form in a shuffled order must agree with the map form; then scripts from the grammar: x y z, integer / float literals, + - * / % and unary minus with the number on either side, min max compare mix and or atan2 and the 15 unary functions in call and method spelling, remap with 2 / 3 axes, arrays of trees added to trees, comparisons (6% of cases), shape constructors chosen uniformly from the reflection table with each defaulted field present 60% of the time and a required field missing 4% of the time, in map form (keys shuffled, 4% an unknown key), chained transform form, or positional (field order or shuffled, call or method on the first argument); values: ints / floats, arrays or vecN(..) for vectors (vec3 from 2 or 3 components), strings / bare axes / axis-aligned arrays for axes, names or plane(axis, n) for planes, nested up to depth 4; rotation matrices for every axis / angle a rotate call can use are computed with nalgebra and passed to the model as data; the tree of engine().eval::<Tree>(script), or the fact that it is an error, must equal the Coq model's (the error class is compared too but only recorded: in a script with several faulty sub-expressions the one reported first depends on rhai's argument evaluation order); a 16-script corpus of documented forms and predicted surprises runs first; distinct_nontrivial = distinct scripts",
      classify=classify_default,
